@@ -37,7 +37,13 @@ def main():
     ap.add_argument('--tests', action='store_true')
     ap.add_argument('--checks', default=None)
     ap.add_argument('--tier', default='quick')
+    ap.add_argument('--repo', default=None, help='evaluate in this scratch worktree of /repo instead of /repo itself (checks import outrank from it through PYTHONPATH), so that several properties can be evaluated in parallel')
     a = ap.parse_args()
+    global REPO
+    env = None
+    if a.repo:
+        REPO = os.path.abspath(a.repo)
+        env = {'PYTHONPATH': REPO}
     d = os.path.abspath(a.dir)
     meta_p = os.path.join(d, 'meta.json')
     meta = json.load(open(meta_p)) if os.path.exists(meta_p) else {}
@@ -45,7 +51,7 @@ def main():
     if not clean():
         print('REPO NOT CLEAN - refusing')
         return 2
-    conf = {'at': time.strftime('%Y-%m-%d %H:%M:%S'), 'repo_head': sh('git rev-parse --short HEAD', cwd=REPO)[1].strip(), 'checks': {}}
+    conf = {'at': time.strftime('%Y-%m-%d %H:%M:%S'), 'evaluated_in': REPO, 'repo_head': sh('git rev-parse --short HEAD', cwd=REPO)[1].strip(), 'checks': {}}
     demo = os.path.join(d, 'demo.py')
     replays = []
     try:
@@ -56,17 +62,17 @@ def main():
             return 2
         conf['applies'] = True
         if a.tests:
-            rc, out = sh(f'{PY} -m pytest -q -p no:cacheprovider --timeout=900 tests/', cwd=REPO)
+            rc, out = sh(f'{PY} -m pytest -q -p no:cacheprovider --timeout=900 tests/', cwd=REPO, env=env)
             tail = [l for l in out.strip().splitlines() if 'passed' in l or 'failed' in l][-1:]
             conf['tests'] = {'rc': rc, 'summary': tail[0] if tail else out[-200:]}
             print('tests with change:', conf['tests'])
         if os.path.exists(demo):
-            rc, out = sh(f'{PY} {demo}', cwd=REPO, timeout=900)
+            rc, out = sh(f'{PY} {demo}', cwd=REPO, timeout=900, env=env)
             conf['demo_with_change_rc'] = rc
             print('demo with change rc =', rc, '(must be non-zero)')
         for c in checks:
             t0 = time.time()
-            rc, out = sh(f'./check {c} --tier {a.tier}', cwd=VERIF, timeout=7200)
+            rc, out = sh(f'./check {c} --tier {a.tier}', cwd=VERIF, timeout=7200, env=env)
             viol = [l for l in out.splitlines() if l.startswith('VIOLATION')]
             detail = [l.strip() for l in out.splitlines() if l.startswith('   ')][:3]
             conf['checks'][c] = {'rc': rc, 'violation_lines': len(viol), 'first': detail[:2], 'wall_s': round(time.time() - t0, 1), 'tier': a.tier}
@@ -74,19 +80,19 @@ def main():
             # the first replay file must reproduce (twice, identically) without the explorer while the change is applied ...
             if viol:
                 rp = viol[0].split('replay=')[-1].strip()
-                rrc, rout = sh(f'./check {c} --replay {rp}', cwd=VERIF, timeout=1800)
+                rrc, rout = sh(f'./check {c} --replay {rp}', cwd=VERIF, timeout=1800, env=env)
                 conf['checks'][c]['replay_with_change_rc'] = rrc
                 replays.append((c, rp))
                 print(f'   replay with change rc={rrc} (must be 1)')
     finally:
         sh('git checkout -- .', cwd=REPO)
     if os.path.exists(demo):
-        rc, out = sh(f'{PY} {demo}', cwd=REPO, timeout=900)
+        rc, out = sh(f'{PY} {demo}', cwd=REPO, timeout=900, env=env)
         conf['demo_without_change_rc'] = rc
         print('demo without change rc =', rc, '(must be 0)')
     # ... and must pass on the unchanged tree
     for c, rp in replays:
-        rrc, rout = sh(f'./check {c} --replay {rp}', cwd=VERIF, timeout=1800)
+        rrc, rout = sh(f'./check {c} --replay {rp}', cwd=VERIF, timeout=1800, env=env)
         conf['checks'][c]['replay_without_change_rc'] = rrc
         print(f'   replay without change rc={rrc} (must be 0)')
     conf['detected_by'] = [c for c, r in conf['checks'].items() if r['rc'] == 1 and r['violation_lines'] > 0]
